@@ -34,7 +34,7 @@ func (fr *frame) loopTouched(li *loopInfo) (names map[string]bool, all bool) {
 			switch callee.Name() {
 			case "delete":
 				mt := c.Args[0].Type().Underlying().(*types.Map)
-				dn, vn, _, _ := fc.mapArrs(mt)
+				dn, vn, _, _ := fc.mapArrs(mt, fc.e.regionOf(c.Args[0]))
 				names[dn], names[vn] = true, true
 			case "close":
 				names["CC"] = true
@@ -111,7 +111,7 @@ func (fr *frame) loopTouched(li *loopInfo) (names map[string]bool, all bool) {
 					}
 				case *ssa.MapUpdate:
 					mt := i.Map.Type().Underlying().(*types.Map)
-					dn, vn, _, _ := fc.mapArrs(mt)
+					dn, vn, _, _ := fc.mapArrs(mt, fc.e.regionOf(i.Map))
 					names[dn], names[vn] = true, true
 				case *ssa.Send:
 					names["CL"] = true
@@ -119,7 +119,7 @@ func (fr *frame) loopTouched(li *loopInfo) (names map[string]bool, all bool) {
 				case *ssa.Alloc, *ssa.MakeMap, *ssa.MakeChan:
 					names["Alloc"] = true
 					if mm, ok := in.(*ssa.MakeMap); ok {
-						dn, _, _, _ := fc.mapArrs(mm.Type().Underlying().(*types.Map))
+						dn, _, _, _ := fc.mapArrs(mm.Type().Underlying().(*types.Map), fc.e.regionOf(mm))
 						names[dn] = true
 					}
 					if al, ok := in.(*ssa.Alloc); ok {
@@ -273,11 +273,16 @@ func (fr *frame) loopHeader(li *loopInfo, b *ssa.BasicBlock, st *State) *State {
 		}
 		if fc.c != nil && !fc.modEvery && !fc.modAll[k] && strings.HasPrefix(old.Sort, "(Array Int ") && !strings.HasPrefix(k, "VIS$") {
 			al := fc.heapGet(fr.old, "Alloc", arr(SInt, SBool))
-			conds := []string{sel(al.S, "r")}
-			for _, m := range fc.modset[k] {
-				conds = append(conds, not(eq("r", m.S)))
+			_ = al
+			fc.fact(fmt.Sprintf("(forall ((r Int)) (! (=> (not %s) (= (select %s r) (select %s r))) :pattern ((select %s r))))", fc.allowed(fr.old, k, "r"), nw.S, old.S, nw.S))
+		}
+	}
+	for _, k := range keys {
+		if k != "Alloc" {
+			if fc.allocAt == nil {
+				fc.allocAt = map[string]string{}
 			}
-			fc.fact(fmt.Sprintf("(forall ((r Int)) (! (=> %s (= (select %s r) (select %s r))) :pattern ((select %s r))))", and(conds...), nw.S, old.S, nw.S))
+			fc.allocAt[st.heap[k].S] = st.heap["Alloc"].S
 		}
 	}
 	// 3. fresh phis
@@ -427,7 +432,7 @@ func (fr *frame) loopEnv(li *loopInfo, st *State, phis map[*ssa.Phi]Term) *Env {
 		// header phi named like the variable
 		for phi, v := range phis {
 			if phi.Comment == name {
-				return CVal{v, phi.Type()}, true
+				return CVal{v, withReg(phi.Type(), fc.e.regionOf(phi))}, true
 			}
 		}
 		return fr.lookupVar(name, li.header)
@@ -476,7 +481,7 @@ func (fr *frame) lookupVar(name string, at *ssa.BasicBlock) (CVal, bool) {
 	}
 	v := fr.val(best)
 	if t, ok := v.(Term); ok {
-		return CVal{t, best.Type()}, true
+		return CVal{t, withReg(best.Type(), fr.fc.e.regionOf(best))}, true
 	}
 	return CVal{}, false
 }
